@@ -3,7 +3,11 @@
 //! Case: `q<kind> <topology> <keyspace strategies> <strategy> <dc|-> <token>` (syntax: `topology.rs`).
 //! The cluster is built through `ClusterState::new` (hook `cluster_from_topology`); the keyspace strategies are
 //! the ones the driver precomputes, the queried strategy may or may not be among them.
-//! Output: `len=… iter=… choose=… ord=… ep=…` (node ids).
+//! Output: `len=… iter=… choose=… ord=… ep=… epl=… epu=…` (node ids).
+//! Refresh history: `h<kind> <n> (<mode> <topology> <strategies>)xn <strategy> <dc|-> <token>` - build (`n`), then
+//! full (`r`, `cluster_refresh`) or topology-only (`t`, `cluster_refresh_topology`) refreshes; the output is the
+//! observation after every step joined by ` / `; after every step the state must answer exactly like a cluster
+//! built from scratch from the same metadata (and obey the placement rules).
 //!
 //! Oracle (independent of the Lean model): a brute-force implementation of the two placement rules as the
 //! property states them; precomputed answer = on-the-fly answer; datacenter restriction = filtering the
@@ -326,29 +330,118 @@ fn sorted(v: &[u64]) -> Vec<u64> {
     s
 }
 
+fn parse_dc(s: &str) -> Option<Option<u32>> {
+    if s == "-" { Some(None) } else { s.parse().ok().map(Some) }
+}
+
 pub fn run(case: &str, ctx: &mut Ctx) -> String {
     let w: Vec<&str> = case.split_whitespace().collect();
+    if w.is_empty() {
+        return "bad-case".into();
+    }
+    if w[0].starts_with('h') {
+        return run_history(&w, ctx);
+    }
     if w.len() != 6 || !w[0].starts_with('q') {
         return "bad-case".into();
     }
-    let (Some(peers), Some(pre), Some(strat), Ok(tok)) =
-        (parse_topology(w[1]), parse_strategies(w[2]), parse_strategy(w[3]), w[5].parse::<i64>())
+    let (Some(peers), Some(pre), Some(strat), Ok(tok), Some(dc)) =
+        (parse_topology(w[1]), parse_strategies(w[2]), parse_strategy(w[3]), w[5].parse::<i64>(), parse_dc(w[4]))
     else {
         return "bad-case".into();
     };
-    let dc: Option<u32> = match w[4] {
-        "-" => None,
-        s => match s.parse() {
-            Ok(d) => Some(d),
-            Err(_) => return "bad-case".into(),
-        },
+    let main = cluster(w[1], &peers, w[2], &pre);
+    check_state(&main, None, w[1], &peers, w[2], &pre, w[3], &strat, dc, tok, ctx)
+}
+
+/// `h<kind> <n> (<mode> <topology> <strategies>)xn <strategy> <dc|-> <token>`: mode `n` builds the cluster,
+/// `r` = `cluster_refresh` (new topology and keyspaces), `t` = `cluster_refresh_topology` (peers only; strategies
+/// written `=`); `R` / `T` = the same through the host-filter-ACCEPTING hooks (accepted-node arms of the reuse match).  After EVERY step all observations are made on the refreshed state and compared with a cluster
+/// built from scratch from the same metadata, and with the placement rules.
+fn run_history(w: &[&str], ctx: &mut Ctx) -> String {
+    let Some(n) = w.get(1).and_then(|x| x.parse::<usize>().ok()) else { return "bad-case".into() };
+    if n == 0 || w.len() != 2 + 3 * n + 3 {
+        return "bad-case".into();
+    }
+    let tail = &w[2 + 3 * n..];
+    let (Some(strat), Some(dc), Ok(tok)) = (parse_strategy(tail[0]), parse_dc(tail[1]), tail[2].parse::<i64>()) else {
+        return "bad-case".into();
     };
+    let mut state: Option<Rc<ClusterState>> = None;
+    let mut pre: Vec<Strat> = Vec::new();
+    let mut pre_s = String::new();
+    let mut key = String::new();
+    let mut lines: Vec<String> = Vec::new();
+    let mut prev_peers: Vec<PeerSpec> = Vec::new();
+    for i in 0..n {
+        let (mode, topo_s, step_pre) = (w[2 + 3 * i], w[3 + 3 * i], w[4 + 3 * i]);
+        let Some(peers) = parse_topology(topo_s) else { return "bad-case".into() };
+        key = format!("{} {} {} {}", key, mode, topo_s, step_pre);
+        match (mode, &state) {
+            ("n", None) | ("r", Some(_)) | ("R", Some(_)) => {
+                let Some(p) = parse_strategies(step_pre) else { return "bad-case".into() };
+                pre = p;
+                pre_s = step_pre.to_owned();
+            }
+            ("t", Some(_)) | ("T", Some(_)) if step_pre == "=" => {}
+            _ => return "bad-case".into(),
+        }
+        let prev = state.clone();
+        let cs = CACHE.with(|c| {
+            let mut c = c.borrow_mut();
+            if let Some(cs) = c.get(&key) {
+                return cs.clone();
+            }
+            if c.len() >= 24 {
+                c.clear();
+            }
+            let cs = Rc::new(match (mode, &prev) {
+                ("n", _) => build_cluster(&peers, &pre),
+                ("r", Some(p)) => refresh_cluster(p, &peers, &pre),
+                ("R", Some(p)) => refresh_cluster_accepting(p, &prev_peers, &peers, &pre),
+                ("T", Some(p)) => refresh_cluster_topology_accepting(p, &prev_peers, &peers),
+                (_, Some(p)) => refresh_cluster_topology(p, &peers),
+                _ => unreachable!(),
+            });
+            c.insert(key.clone(), cs.clone());
+            cs
+        });
+        let label = format!("after step {} ({})", i + 1, mode);
+        lines.push(check_state(&cs, Some(&label), topo_s, &peers, &pre_s, &pre, tail[0], &strat, dc, tok, ctx));
+        state = Some(cs);
+        prev_peers = peers;
+    }
+    lines.join(" / ")
+}
+
+/// All observations and oracles on one cluster state whose metadata is (`peers`, keyspaces `pre`).
+/// `refreshed`: the state came out of a refresh history; it must then answer like a cluster built from scratch.
+#[allow(clippy::too_many_arguments)]
+fn check_state(
+    main: &ClusterState,
+    refreshed: Option<&str>,
+    topo_s: &str,
+    peers: &[PeerSpec],
+    pre_s: &str,
+    pre: &[Strat],
+    strat_s: &str,
+    strat: &Strat,
+    dc: Option<u32>,
+    tok: i64,
+    ctx0: &mut Ctx,
+) -> String {
+    // oracle messages of a refreshed state say so
+    let mut local = Ctx::default();
+    let ctx = &mut local;
+    let peers = peers.to_vec();
+    let pre = pre.to_vec();
+    let strat = strat.clone();
+    let w = ["", topo_s, pre_s, strat_s];
     let tokn = norm_token(tok);
     let strategy = to_strategy(&strat);
     let dcn = dc.map(dc_name);
 
-    let main = cluster(w[1], &peers, w[2], &pre);
-    let v = observe(&main, tok, &strategy, dcn.as_deref(), ctx, "replica set");
+    let v = observe(main, tok, &strategy, dcn.as_deref(), ctx, "replica set");
 
     // ---- the placement rules (brute force) ----
     // Members owning the same token are walked in ring (metadata) order, first owner first.
@@ -393,7 +486,7 @@ pub fn run(case: &str, ctx: &mut Ctx) -> String {
 
     // ---- datacenter restriction = filtering the unrestricted answer ----
     if let Some(d) = dc {
-        let un = observe(&main, tok, &strategy, None, ctx, "unrestricted replica set");
+        let un = observe(main, tok, &strategy, None, ctx, "unrestricted replica set");
         let filtered: Vec<u64> = un.iter.iter().copied().filter(|id| dc_of(*id) == Some(d)).collect();
         let same = if matches!(strat, Strat::Nts(_)) { sorted(&filtered) == sorted(&v.iter) } else { filtered == v.iter };
         if !same {
@@ -405,7 +498,11 @@ pub fn run(case: &str, ctx: &mut Ctx) -> String {
     {
         let none = cluster(w[1], &peers, "-", &[]);
         let only = cluster(w[1], &peers, w[3], std::slice::from_ref(&strat));
-        for (name, cs) in [("no keyspace precomputed", &none), ("only this strategy precomputed", &only)] {
+        let mut others = vec![("a cluster built from scratch with no keyspace precomputed", none), ("a cluster built from scratch with only this strategy precomputed", only)];
+        if refreshed.is_some() {
+            others.push(("a cluster built from scratch from the same metadata", cluster(w[1], &peers, w[2], &pre)));
+        }
+        for (name, cs) in others.iter().map(|(n, c)| (*n, c)) {
             let o = observe(cs, tok, &strategy, dcn.as_deref(), ctx, name);
             if o != v {
                 ctx.fail(format!(
@@ -429,6 +526,13 @@ pub fn run(case: &str, ctx: &mut Ctx) -> String {
     let last = pre.len().saturating_sub(1);
     let epl = endpoints(&format!("k{}", last), pre.last().unwrap_or(&Strat::Local), ctx);
     let epu = endpoints("no_such_keyspace", &Strat::Local, ctx);
+    // a refreshed state must also report the endpoints of a fresh one (compared through `expected` above)
+    for f in local.oracle_failures.drain(..) {
+        match refreshed {
+            Some(label) => ctx0.fail(format!("{}: {}", label, f)),
+            None => ctx0.fail(f),
+        }
+    }
     format!(
         "len={} iter={} choose={} ord={} ep={} epl={} epu={}",
         v.len,
@@ -645,6 +749,188 @@ fn vary_det(s: &Strat, k: usize) -> Strat {
     }
 }
 
+// ---------------------------------------------------------------------------------------------
+// refresh histories
+
+/// One metadata change between two refreshes: a node changes rack (most often: placement reads the rack of the
+/// node OBJECT in the ring, and node objects may be reused across refreshes), datacenter, tokens or address
+/// (= position in the peer list), leaves, or joins.
+fn mutate(rng: &mut Rng, peers: &mut Vec<PeerSpec>, max_racks: u32, next_id: &mut u64) {
+    let used: Vec<i64> = peers.iter().flat_map(|p| p.tokens.iter().map(|t| norm_token(*t))).collect();
+    let fresh = |rng: &mut Rng| -> i64 {
+        loop {
+            let t = rng.range(-90, 90);
+            if !used.contains(&t) {
+                return t;
+            }
+        }
+    };
+    if peers.is_empty() {
+        peers.push(PeerSpec { id: *next_id, dc: Some(0), rack: Some(0), tokens: vec![fresh(rng)], flags: String::new() });
+        *next_id += 1;
+        return;
+    }
+    let i = rng.below(peers.len() as u64) as usize;
+    match rng.below(12) {
+        0..=4 => {
+            // another rack within the same datacenter (or no rack)
+            let old = peers[i].rack;
+            let mut r = old;
+            for _ in 0..8 {
+                r = if rng.chance(1, 8) { None } else { Some(rng.below(max_racks.max(2) as u64) as u32) };
+                if r != old {
+                    break;
+                }
+            }
+            peers[i].rack = r;
+        }
+        5 => {
+            let dcs = dcs_of(peers);
+            peers[i].dc = if rng.chance(1, 6) || dcs.is_empty() { Some(rng.below(3) as u32) } else { Some(*rng.pick(&dcs)) };
+        }
+        6 => {
+            let t = fresh(rng);
+            if peers[i].tokens.is_empty() || rng.chance(1, 3) {
+                peers[i].tokens.push(t);
+            } else if rng.chance(1, 2) {
+                let k = rng.below(peers[i].tokens.len() as u64) as usize;
+                peers[i].tokens[k] = t;
+            } else if peers[i].tokens.len() > 1 {
+                peers[i].tokens.pop();
+            }
+        }
+        7 | 8 => {
+            // address change: the node moves to another position of the peer list
+            let j = rng.below(peers.len() as u64) as usize;
+            peers.swap(i, j);
+        }
+        9 => {
+            if peers.len() > 1 {
+                peers.remove(i);
+            }
+        }
+        _ => {
+            let dcs = dcs_of(peers);
+            let dc = if dcs.is_empty() { Some(0) } else { Some(*rng.pick(&dcs)) };
+            let rack = if rng.chance(1, 8) { None } else { Some(rng.below(max_racks.max(2) as u64) as u32) };
+            let at = rng.below(peers.len() as u64 + 1) as usize;
+            peers.insert(at, PeerSpec { id: *next_id, dc, rack, tokens: vec![fresh(rng)], flags: String::new() });
+            *next_id += 1;
+        }
+    }
+}
+
+/// Strategies whose answer depends on racks in the datacenters of `peers` (RF below / at the rack count).
+fn rack_sensitive_nts(rng: &mut Rng, peers: &[PeerSpec]) -> Strat {
+    let mut v: Vec<(u32, usize)> = Vec::new();
+    for d in dcs_of(peers) {
+        let nodes = peers.iter().filter(|p| p.dc == Some(d) && !p.tokens.is_empty()).count();
+        let mut racks: Vec<Option<u32>> = peers.iter().filter(|p| p.dc == Some(d)).map(|p| p.rack).collect();
+        racks.sort();
+        racks.dedup();
+        let rf = match rng.below(4) {
+            0 => racks.len(),
+            1 => racks.len().saturating_sub(1).max(1),
+            2 => racks.len() + 1,
+            _ => rng.range(1, nodes.max(1) as i64) as usize,
+        };
+        v.push((d, rf));
+    }
+    Strat::Nts(v)
+}
+
+fn emit_history(rng: &mut Rng, shape: TopoShape, emit: &mut dyn FnMut(String)) {
+    let mut peers = gen_topology(rng, shape);
+    let mut next_id = 500u64;
+    let n = rng.range(2, 5) as usize; // the build + 1..4 refreshes
+    let mut pre: Vec<Strat> = (0..rng.range(0, 2)).map(|_| gen_strategy(rng, &peers)).collect();
+    let mut words: Vec<String> = vec![format!("n {} {}", fmt_topology(&peers), fmt_strategies(&pre))];
+    let mut modes = String::from("n");
+    let mut topologies: Vec<Vec<PeerSpec>> = vec![peers.clone()];
+    for _ in 1..n {
+        for _ in 0..rng.range(1, 2) {
+            mutate(rng, &mut peers, shape.max_racks as u32, &mut next_id);
+        }
+        let accepting = rng.chance(1, 2);
+        if rng.chance(1, 3) {
+            let m = if accepting { 'T' } else { 't' };
+            words.push(format!("{} {} =", m, fmt_topology(&peers)));
+            modes.push(m);
+        } else {
+            if rng.chance(1, 2) {
+                pre = (0..rng.range(0, 3)).map(|_| if rng.chance(1, 2) { rack_sensitive_nts(rng, &peers) } else { gen_strategy(rng, &peers) }).collect();
+            }
+            let m = if accepting { 'R' } else { 'r' };
+            words.push(format!("{} {} {}", m, fmt_topology(&peers), fmt_strategies(&pre)));
+            modes.push(m);
+        }
+        topologies.push(peers.clone());
+    }
+    let mut toks: Vec<i64> = topologies.iter().flat_map(|t| query_tokens(t)).collect();
+    toks.sort_unstable();
+    toks.dedup();
+    let dcs = dcs_of(&peers);
+    for _ in 0..3 {
+        let strat = match rng.below(6) {
+            0 => gen_strategy(rng, &peers),
+            1 if !pre.is_empty() => rng.pick(&pre).clone(),
+            _ => {
+                let k = rng.below(topologies.len() as u64) as usize;
+                rack_sensitive_nts(rng, &topologies[k])
+            }
+        };
+        let ss = fmt_strategy(&strat);
+        for _ in 0..4 {
+            let tok = *rng.pick(&toks);
+            let dc = if rng.chance(2, 3) || dcs.is_empty() { "-".to_owned() } else { rng.pick(&dcs).to_string() };
+            emit(format!("h{}{} {} {} {} {} {}", &ss[..1], modes, n, words.join(" "), ss, dc, tok));
+        }
+    }
+}
+
+/// Exhaustive small universe of one refresh: 3 nodes in one datacenter, every rack assignment before x every rack
+/// assignment after (racks 0, 1, none), same or rotated peer order (address change), full and topology-only
+/// refresh, NTS RF 1..3 precomputed or not, two tokens.
+fn exhaustive_histories(stride: usize, emit: &mut dyn FnMut(String)) {
+    let racks = [Some(0u32), Some(1), None];
+    let mk = |a: usize, rot: usize| -> Vec<PeerSpec> {
+        let mut x = a;
+        let mut v: Vec<PeerSpec> = (0..3u64)
+            .map(|i| {
+                let r = racks[x % 3];
+                x /= 3;
+                PeerSpec { id: i + 1, dc: Some(0), rack: r, tokens: vec![i as i64 * 10], flags: String::new() }
+            })
+            .collect();
+        v.rotate_left(rot);
+        v
+    };
+    let mut counter = 0usize;
+    for a in 0..27 {
+        for b in 0..27 {
+            if a == b {
+                continue;
+            }
+            for rot in [0usize, 1] {
+                for rf in 1..=3usize {
+                    for pre in ["-".to_owned(), format!("N0={}", rf)] {
+                        for mode in ["r", "t", "R", "T"] {
+                            for tok in [-5i64, 10] {
+                                counter += 1;
+                                if counter % stride != 0 {
+                                    continue;
+                                }
+                                let step = if mode == "r" || mode == "R" { format!("{} {} {}", mode, fmt_topology(&mk(b, rot)), pre) } else { format!("{} {} =", mode, fmt_topology(&mk(b, rot))) };
+                                emit(format!("hNn{} 2 n {} {} {} N0={} - {}", mode, fmt_topology(&mk(a, 0)), pre, step, rf, tok));
+                            }
+                        }
+                    }
+                }
+            }
+        }
+    }
+}
+
 /// First word of a case line: `q` + strategy kind (S/N/L/O) + relation to the precomputed keyspaces
 /// (p = among them, v = others are, n = none) + restriction (a = all datacenters, d = one) + `D` when some token
 /// has several owners.  Only `q` matters to the parsers; the rest feeds the evidence histogram.
@@ -664,6 +950,9 @@ fn kind_word(line: &str) -> String {
 
 pub fn generate(rng: &mut Rng, tier: Tier, emit0: &mut dyn FnMut(String)) {
     let emit: &mut dyn FnMut(String) = &mut |line: String| {
+        if line.starts_with('h') {
+            return emit0(line);
+        }
         let k = kind_word(&line);
         emit0(format!("{}{}", k, &line[1..]))
     };
@@ -687,6 +976,16 @@ pub fn generate(rng: &mut Rng, tier: Tier, emit0: &mut dyn FnMut(String)) {
         exhaustive(3, &HOLES, false, 4, 1, emit);
         exhaustive(3, &PLAIN, true, 4, 1, emit);
         exhaustive(4, &HOLES, false, 3, 7, emit);
+    }
+    // refresh histories (the locator after a refresh = the locator of a cluster built from scratch)
+    exhaustive_histories(if quick { 17 } else { 1 }, emit);
+    for i in 0..(if quick { 1500 } else { 30_000 }) {
+        let shape = match i % 3 {
+            0 => TopoShape { max_nodes: 5, max_dcs: 1, max_racks: 3, max_vnodes: 2, dups: 0 },
+            1 => TopoShape { max_nodes: 8, max_dcs: 2, max_racks: 3, max_vnodes: 2, dups: 0 },
+            _ => TopoShape { max_nodes: 10, max_dcs: 3, max_racks: 4, max_vnodes: 3, dups: 1 },
+        };
+        emit_history(rng, shape, emit);
     }
     let topologies = if quick { 5000 } else { 80_000 };
     for i in 0..topologies {
